@@ -90,6 +90,10 @@ pub struct Profile {
     pub small_geo_pct: u32,
     /// make SM/RM sequences and Operator mode calls pick DECCOLM often (C16 round trip)
     pub deccolm_bias: bool,
+    /// per-mille of runs that are "big": one construct blown up far beyond the usual sizes (an OSC
+    /// payload of thousands of characters, dozens of CSI parameters, tens of kilobytes of text or
+    /// byte soup in one read) - buffers and fast paths have thresholds that short inputs never cross
+    pub big_permille: u32,
 }
 
 impl Profile {
@@ -109,6 +113,7 @@ impl Profile {
             midchunk: true,
             small_geo_pct: 70,
             deccolm_bias: false,
+            big_permille: 0,
         }
     }
 }
@@ -750,6 +755,80 @@ pub struct Session {
     pub kind: Kind,
 }
 
+/// one construct blown up far beyond the usual sizes
+pub fn big_session(r: &mut Rng, utf8: bool) -> Vec<u8> {
+    let mut out = Vec::new();
+    match r.below(6) {
+        0 => {
+            // an OSC string of thousands of (partly multi-byte) characters
+            out.extend_from_slice(b"\x1b]");
+            out.push(*r.pick(b"012"));
+            out.push(b';');
+            let n = *r.pick(&[1000u64, 4090, 4096, 5000, 8200, 20000]) + r.below(9);
+            let wide = r.chance(1, 2);
+            for i in 0..n {
+                if wide || i % 7 == 3 {
+                    push_char(&mut out, *r.pick(&['é', 'Ω', '世', 'ÿ']), utf8);
+                } else {
+                    out.push(*r.pick(NARROW.as_bytes()));
+                }
+            }
+            out.extend_from_slice(*r.pick(&[&b"\x07"[..], b"\x1b\\"]));
+            out.extend_from_slice(b"ok");
+        }
+        1 => {
+            // dozens to hundreds of CSI parameters
+            out.extend_from_slice(b"\x1b[");
+            let n = *r.pick(&[16u64, 17, 31, 32, 33, 40, 64, 65, 200]);
+            for i in 0..n {
+                if i > 0 {
+                    out.push(b';');
+                }
+                out.extend_from_slice(format!("{}", *r.pick(&[0u32, 1, 4, 7, 31, 38, 5, 196, 2, 48])).as_bytes());
+            }
+            out.push(*r.pick(b"mmmHrhl"));
+            out.extend_from_slice(b"x");
+        }
+        2 => {
+            // a long run of text in one go
+            let n = *r.pick(&[300u64, 1024, 4096, 16384]) + r.below(5);
+            for _ in 0..n {
+                push_char(&mut out, text_char(r, Focus::Text), utf8);
+            }
+        }
+        3 => {
+            // kilobytes of ill-formed bytes
+            let n = *r.pick(&[1024usize, 4096, 16383, 16384, 16385, 32768]);
+            let b = *r.pick(&[0xffu8, 0x80, 0xc0, 0xe2, 0xf0, 0xed]);
+            for i in 0..n {
+                out.push(if i % 97 == 96 { b'a' } else { b });
+            }
+            out.extend_from_slice(b"end");
+        }
+        4 => {
+            // hundreds of repetitions of one short editing sequence
+            let seqs: [&[u8]; 8] = [b"\x1bH", b"\x1b[g", b"\x1b(0", b"\x1b)U", b"\x1b7", b"\x1b8", b"\x1b[C", b"\t"];
+            let a = *r.pick(&seqs);
+            let b = *r.pick(&seqs);
+            let n = *r.pick(&[255u64, 256, 257, 300, 1000]);
+            for i in 0..n {
+                out.extend_from_slice(if i % 2 == 0 { a } else { b });
+            }
+            out.extend_from_slice(b"\t\x1b8x");
+        }
+        _ => {
+            // a very long digit run and a very long unknown sequence
+            out.extend_from_slice(b"\x1b[");
+            for _ in 0..*r.pick(&[40u64, 300, 5000]) {
+                out.push(*r.pick(b"0123456789"));
+            }
+            out.push(*r.pick(b"CHmz"));
+            out.extend_from_slice(b"y");
+        }
+    }
+    out
+}
+
 pub fn program(r: &mut Rng, p: &Profile, g: Geo, utf8: bool, len: usize) -> Session {
     let kinds = [Kind::Grammar, Kind::Text, Kind::Editor, Kind::Soup, Kind::Captured, Kind::CharsetSweep];
     let mut w = p.kinds;
@@ -1155,7 +1234,13 @@ pub fn trace(prop: &str, seed: u64, index: u64, p: &Profile) -> Trace {
     } as usize;
 
     let mut fc = FaultCounts::default();
-    let sess = program(&mut rw, p, g, utf8, len);
+    let big = p.big_permille > 0 && rc.chance(if deep() { p.big_permille as u64 * 4 } else { p.big_permille as u64 }, 1000);
+    let sess = if big {
+        fc.hit("big_input");
+        Session { bytes: big_session(&mut rw, utf8), kind: Kind::Soup }
+    } else {
+        program(&mut rw, p, g, utf8, len)
+    };
     let mut bytes = sess.bytes;
     if chars {
         // the character front end takes a String: make the session valid UTF-8
